@@ -8,6 +8,7 @@ on the implementation, (4) write evidence, print VIOLATION / KNOWN-FINDING lines
 """
 from __future__ import annotations
 
+import fnmatch
 import hashlib
 import json
 import os
@@ -383,11 +384,11 @@ def run_check(prop: str, *, lean_modules: list[str], required_theorems: list[str
     reported = set()
     n_known = 0
     for v in violations:
-        hit = [k for k in known_here if k[0] == v.key]
+        hit = [k for k in known_here if fnmatch.fnmatchcase(v.key, k[0])]
         if hit:
-            if ("known", v.key) not in reported:
-                print(f"KNOWN-FINDING: property={prop} {hit[0][1]} [key={v.key}]")
-                reported.add(("known", v.key))
+            if ("known", hit[0][0]) not in reported:
+                print(f"KNOWN-FINDING: property={prop} {hit[0][1]} [key={hit[0][0]}]")
+                reported.add(("known", hit[0][0]))
             n_known += 1
             continue
         if v.key in reported:
@@ -425,13 +426,14 @@ def run_check(prop: str, *, lean_modules: list[str], required_theorems: list[str
     n_thm = len(lean.theorems)
     n_suites = len(suites)
     obligations = n_thm + n_suites
-    suites_ok = sum(1 for r in results if not r.disagreements and not r.violations)
+    suites_ok = sum(1 for r in results if not r.disagreements and all(
+        any(fnmatch.fnmatchcase(v.key, k[0]) for k in known_here) for v in r.violations))
     discharged = (n_thm if lean.ok else 0) + (suites_ok if not infra_errors else 0)
     if n_known and not unknown_violation:
         # suites whose only findings are listed known findings still count as run-and-explained
         discharged = (n_thm if lean.ok else 0) + sum(
             1 for r in results if not r.disagreements
-            and all(any(k[0] == v.key for k in known_here) for v in r.violations))
+            and all(any(fnmatch.fnmatchcase(v.key, k[0]) for k in known_here) for v in r.violations))
     evaluations = sum(r.evaluations for r in results)
     nontrivial = sum(len(r.nontrivial) for r in results)
     cov = {
